@@ -562,10 +562,32 @@ func sbHeap(g *Gen) string {
 	return h
 }
 
+// interiorKey: the ghost key of a strings.Builder that is a field of another object (an interior pointer): a reference
+// term outside the range of allocated objects (negative array id), determined by the enclosing object and the field
+// path, so that it aliases no first-class builder and no other field.
+func interiorKey(base, path string) string {
+	h := 0
+	for _, ch := range path {
+		h = (h*131 + int(ch)) % 1000003
+	}
+	return fmt.Sprintf("(elem (- 0 (oid %s)) %d)", base, h+1)
+}
+
+func builderRef(v Val) string {
+	if v.T != "" {
+		return v.T
+	}
+	if v.LV != nil && v.LV.Base != "" && !strings.HasPrefix(v.LV.Path, "G:") {
+		return interiorKey(v.LV.Base, v.LV.Path)
+	}
+	return ""
+}
+
 func extBuilderWrite(f *frame, cm *ssa.CallCommon, args []Val, st *State, name string, resT types.Type, pos token.Pos) Val {
 	r := f.freshResult(resT, st, name)
+	args[0].T = builderRef(args[0])
 	if args[0].T == "" {
-		return r // a builder embedded in another struct (interior pointer): content not modelled
+		return r // a builder the engine cannot name: content not modelled
 	}
 	h := sbHeap(f.c.g)
 	cur := st.Heap(h)
@@ -576,6 +598,7 @@ func extBuilderWrite(f *frame, cm *ssa.CallCommon, args []Val, st *State, name s
 }
 
 func extBuilderString(f *frame, cm *ssa.CallCommon, args []Val, st *State, name string, resT types.Type, pos token.Pos) Val {
+	args[0].T = builderRef(args[0])
 	if args[0].T == "" {
 		return f.freshResult(resT, st, name)
 	}
